@@ -30,7 +30,7 @@ func init() {
 			"the model server answers the library's own MODE/WHO requests right after the event that caused them (no interleaving of further events before the reply)",
 			"conformant sessions are covered up to the stated depth, not to closure (the model network has millions of states)",
 			"arbitrary-lines: the client runs with a NewNick function that stays inside the name universe (me->a->b->me) so that a 433 cannot create names the harness cannot observe",
-			"arbitrary-lines: the source is varied over {me!ident@host, a!u@h, srv, none} for the verbs whose handler reads it (JOIN PART QUIT NICK) and for KICK; MODE/TOPIC use a!u@h (plus one server- and one source-less line), numerics come from srv",
+			"arbitrary-lines: the source is varied over {me!ident@host, a!u@h, srv, none, ME!ident@host} for the verbs whose handler reads it (JOIN PART QUIT NICK) and for KICK; MODE/TOPIC use a!u@h (plus one server- and one source-less line), numerics come from srv",
 			"arbitrary-lines: successor states are deduplicated on the tracker's structure (who/which channel is tracked, memberships, own nick); privileges, topics, modes and user details are not part of the key",
 		},
 		Jobs: c13Jobs,
@@ -541,7 +541,7 @@ func c13EvName(h []c13Ev, i int) string {
 // every name a line of the alphabet can put into the tracker (argument tokens,
 // plus "o": the NAMES entry "+o" is voice-prefix + nick "o"). The tracker is
 // queried for each of them as a nick AND as a channel.
-var c13Names = []string{"#x", "#y", "me", "a", "b", "", "@a", "+o", "-o", "a b", "o"}
+var c13Names = []string{"#x", "#y", "me", "a", "b", "", "@a", "+o", "-o", "a b", "o", "ME"}
 
 // c13Rotate is the client's NewNick function in this family: it stays inside the universe.
 func c13Rotate(old string) string {
@@ -565,7 +565,8 @@ func c13Param(tok string, last bool) string {
 // tokens in the positions the handler reads, incl. lines with too few arguments.
 func c13Alphabet() []string {
 	const sMe, sA, sSrv = ":me!ident@host ", ":a!u@h ", ":srv "
-	srcs := []string{sMe, sA, sSrv, ""}
+	// (":ME!...": somebody whose nick differs from the client's in letter case only; nicks are compared byte for byte)
+	srcs := []string{sMe, sA, sSrv, "", ":ME!ident@host "}
 	var out []string
 	seen := map[string]bool{}
 	add := func(src string, parts ...string) {
